@@ -6,6 +6,15 @@ CONSTANTS
   HAlpha <- MCHAlpha
   HMaxLen = @HMAXLEN@
   HExtra <- MCHExtra
+  HAlpha2 <- MCHAlpha2
+  HMaxLen2 = @HMAXLEN2@
+  GKeys <- MCGKeys
+  GAlpha <- MCGAlpha
+  GMaxLen = @GMAXLEN@
+  GOdd <- MCGOdd
+  GTails <- MCGTails
+  GSmall <- MCGSmall
+  GSeps <- MCGSeps
   ArgLists <- MCArgLists
   Dev <- MCDev
 VIEW View
